@@ -242,3 +242,95 @@ func AnalyzeLocks(fns []*ssa.Function, isEntry func(*ssa.Function) bool) *LockIn
 	}
 	return li
 }
+
+// MayLocks computes, for every instruction of fns, the locks that may be held
+// before it on some path (callers within fns included; meet = union). Deferred
+// unlocks keep the lock until the function returns. Goroutine bodies start
+// with no locks.
+func MayLocks(fns []*ssa.Function) map[ssa.Instruction]LockSet {
+	set := map[*ssa.Function]bool{}
+	for _, f := range fns {
+		set[f] = true
+	}
+	entry := map[*ssa.Function]LockSet{}
+	for _, f := range fns {
+		entry[f] = LockSet{}
+	}
+	res := map[ssa.Instruction]LockSet{}
+	intra := func(f *ssa.Function) {
+		if len(f.Blocks) == 0 {
+			return
+		}
+		in := map[*ssa.BasicBlock]LockSet{f.Blocks[0]: entry[f].Clone()}
+		work := []*ssa.BasicBlock{f.Blocks[0]}
+		for len(work) > 0 {
+			b := work[0]
+			work = work[1:]
+			cur := in[b].Clone()
+			for _, ins := range b.Instrs {
+				old := res[ins]
+				if old == nil {
+					old = LockSet{}
+					res[ins] = old
+				}
+				for k := range cur {
+					old[k] = true
+				}
+				switch ins.(type) {
+				case *ssa.Defer, *ssa.Go:
+					continue
+				}
+				if id, op, read := MutexOp(ins); op != 0 {
+					if read {
+						id += "#R"
+					}
+					if op > 0 {
+						cur[id] = true
+					} else {
+						delete(cur, id)
+					}
+				}
+			}
+			for _, s := range b.Succs {
+				old, ok := in[s]
+				if !ok {
+					in[s] = cur.Clone()
+					work = append(work, s)
+					continue
+				}
+				grew := false
+				for k := range cur {
+					if !old[k] {
+						old[k] = true
+						grew = true
+					}
+				}
+				if grew {
+					work = append(work, s)
+				}
+			}
+		}
+	}
+	for iter := 0; iter < 30; iter++ {
+		for _, f := range fns {
+			intra(f)
+		}
+		changed := false
+		for _, f := range fns {
+			EachInstr(f, func(in ssa.Instruction) {
+				for _, t := range callTargets(in, set) {
+					for k := range res[in] {
+						if !entry[t][k] {
+							entry[t][k] = true
+							changed = true
+						}
+					}
+				}
+			})
+		}
+		if !changed {
+			break
+		}
+	}
+	return res
+}
